@@ -206,4 +206,352 @@ theorem isDecimalNumber_eq_parse (s : Str) :
 
 end Accept
 
+/-! ### executable grammar = declarative grammar -/
+
+theorem allDigits_takeWhile (l : Str) : AllDigits (l.takeWhile isDigit) := by
+  induction l with
+  | nil => intro c hc; simp at hc
+  | cons a t ih =>
+    by_cases ha : isDigit a = true
+    · simp only [List.takeWhile_cons, ha, if_true]
+      intro c hc
+      rcases List.mem_cons.mp hc with rfl | h
+      · exact ha
+      · exact ih c h
+    · simp only [List.takeWhile_cons, ha]; intro c hc; simp at hc
+
+theorem allDigits_of_all {l : Str} (h : l.all isDigit = true) : AllDigits l := by
+  intro c hc; exact (List.all_eq_true.mp h) c hc
+
+theorem all_of_allDigits {l : Str} (h : AllDigits l) : l.all isDigit = true :=
+  List.all_eq_true.mpr h
+
+/-- digits followed by nothing or by a non-digit: `takeWhile`/`dropWhile` split exactly there -/
+theorem span_digits {ip rest : Str} (hip : AllDigits ip)
+    (hrest : ∀ c r, rest = c :: r → isDigit c = false) :
+    (ip ++ rest).takeWhile isDigit = ip ∧ (ip ++ rest).dropWhile isDigit = rest := by
+  induction ip with
+  | nil =>
+    cases rest with
+    | nil => simp
+    | cons c r => simp [List.takeWhile_cons, List.dropWhile_cons, hrest c r rfl]
+  | cons a t ih =>
+    have ha : isDigit a = true := hip a (List.mem_cons_self ..)
+    have ht : AllDigits t := fun c hc => hip c (List.mem_cons_of_mem _ hc)
+    simp [List.takeWhile_cons, List.dropWhile_cons, ha, ih ht]
+
+theorem parseExp_some {r : Str} {sg : Option Char} {ds : Str} (h : parseExp r = some (sg, ds)) :
+    r = sg.toList ++ ds ∧ (sg = none ∨ sg = some '-' ∨ sg = some '+') ∧ AllDigits ds ∧ ds ≠ [] := by
+  unfold parseExp at h
+  split at h
+  · split at h
+    · rename_i hh; simp at h; rcases h with ⟨rfl, rfl⟩
+      simp at hh; refine ⟨by simp, by simp, allDigits_of_all (by simpa using hh.2), hh.1⟩
+    · cases h
+  · split at h
+    · rename_i hh; simp at h; rcases h with ⟨rfl, rfl⟩
+      simp at hh; refine ⟨by simp, by simp, allDigits_of_all (by simpa using hh.2), hh.1⟩
+    · cases h
+  · split at h
+    · rename_i hh; simp at h; rcases h with ⟨rfl, rfl⟩
+      simp at hh; refine ⟨by simp, by simp, allDigits_of_all (by simpa using hh.2), hh.1⟩
+    · cases h
+
+theorem parseExp_render {sg : Option Char} {ds : Str}
+    (hsg : sg = none ∨ sg = some '-' ∨ sg = some '+') (hds : AllDigits ds) (hne : ds ≠ []) :
+    parseExp (sg.toList ++ ds) = some (sg, ds) := by
+  have hall := all_of_allDigits hds
+  have hemp : ds.isEmpty = false := by cases ds <;> simp at hne ⊢
+  rcases hsg with rfl | rfl | rfl
+  · cases ds with
+    | nil => exact absurd rfl hne
+    | cons c t =>
+      have hc : isDigit c = true := hds c (List.mem_cons_self ..)
+      have h1 : c ≠ '-' := by intro h; subst h; revert hc; decide
+      have h2 : c ≠ '+' := by intro h; subst h; revert hc; decide
+      simp only [Option.toList, List.nil_append]
+      unfold parseExp
+      split
+      · rename_i heq; simp at heq; exact absurd heq.1 h1
+      · rename_i heq; simp at heq; exact absurd heq.1 h2
+      · simp [hall] at *
+  · simp [parseExp, hall, hemp]
+  · simp [parseExp, hall, hemp]
+
+/-- the string of an exponent part -/
+def exStr (sci : Char) : Option (Option Char × Str) → Str
+  | none => []
+  | some (sg, ds) => sci :: (sg.toList ++ ds)
+
+theorem render_eq (dec sci : Char) (p : DecParts) :
+    p.render dec sci = (if p.neg then ['-'] else []) ++ (p.ip ++ ((if p.hasDec then dec :: p.fp else []) ++ exStr sci p.ex)) := by
+  unfold DecParts.render exStr
+  rcases p with ⟨neg, ip, hasDec, fp, ex⟩
+  cases ex with
+  | none => simp
+  | some e => rcases e with ⟨sg, ds⟩; simp
+
+theorem parseTail_some {sci : Char} {neg hasDec : Bool} {ip fp s3 : Str} {p : DecParts}
+    (h : parseTail sci neg ip hasDec fp s3 = some p) :
+    (ip ≠ [] ∨ fp ≠ []) ∧ p.neg = neg ∧ p.ip = ip ∧ p.hasDec = hasDec ∧ p.fp = fp ∧ s3 = exStr sci p.ex ∧
+    (match p.ex with
+     | none => True
+     | some (sg, ds) => (sg = none ∨ sg = some '-' ∨ sg = some '+') ∧ AllDigits ds ∧ ds ≠ []) := by
+  unfold parseTail at h
+  split at h
+  · cases h
+  · rename_i hne
+    have hne' : ip ≠ [] ∨ fp ≠ [] := by
+      cases ip <;> cases fp <;> simp at hne ⊢
+    split at h
+    · simp at h; subst h; simp [exStr, hne']
+    · rename_i c r
+      split at h
+      · rename_i hc
+        have : c = sci := by simpa using hc
+        subst this
+        cases he : parseExp r with
+        | none => simp [he] at h
+        | some e =>
+          rcases e with ⟨sg, ds⟩
+          simp [he] at h; subst h
+          have := parseExp_some he
+          simp [exStr, hne', this.1, this.2]
+      · cases h
+
+section Grammar
+variable {dec sci : Char} (hs : SaneChars dec sci)
+include hs
+
+theorem exStr_head (ex : Option (Option Char × Str)) : ∀ c r, exStr sci ex = c :: r → isDigit c = false := by
+  intro c r h
+  cases ex with
+  | none => simp [exStr] at h
+  | some e => rcases e with ⟨sg, ds⟩; simp [exStr] at h; rw [← h.1]; exact hs.2.2.1
+
+theorem parseUnsigned_sound {neg : Bool} {l : Str} {p : DecParts}
+    (h : parseUnsigned dec sci neg l = some p) :
+    p.WF ∧ p.neg = neg ∧ l = p.ip ++ ((if p.hasDec then dec :: p.fp else []) ++ exStr sci p.ex) := by
+  unfold parseUnsigned at h
+  have hl := (List.takeWhile_append_dropWhile (p := isDigit) (l := l)).symm
+  have hip := allDigits_takeWhile l
+  split at h
+  · rename_i hdw
+    have := parseTail_some h
+    rcases this with ⟨hne, h1, h2, h3, h4, h5, h6⟩
+    refine ⟨⟨by rw [h2]; exact hip, by rw [h4]; intro c hc; simp at hc, by rw [h2, h4]; exact hne, fun _ => h4, h6⟩, h1, ?_⟩
+    rw [hdw] at hl
+    rw [h3, ← h5, h2]; simpa using hl
+  · rename_i c r hdw
+    split at h
+    · rename_i hc
+      have : c = dec := by simpa using hc
+      subst this
+      have := parseTail_some h
+      rcases this with ⟨hne, h1, h2, h3, h4, h5, h6⟩
+      have hr := (List.takeWhile_append_dropWhile (p := isDigit) (l := r)).symm
+      refine ⟨⟨by rw [h2]; exact hip, by rw [h4]; exact allDigits_takeWhile r, by rw [h2, h4]; exact hne, (fun hh => by rw [h3] at hh; cases hh), h6⟩, h1, ?_⟩
+      rw [hdw] at hl
+      rw [h3, ← h5, h2, h4]; simp only [if_true]
+      rw [List.cons_append, ← hr]; exact hl
+    · have := parseTail_some h
+      rcases this with ⟨hne, h1, h2, h3, h4, h5, h6⟩
+      refine ⟨⟨by rw [h2]; exact hip, by rw [h4]; intro c hc; simp at hc, by rw [h2, h4]; exact hne, fun _ => h4, h6⟩, h1, ?_⟩
+      rw [hdw] at hl
+      rw [h3, ← h5, h2]; simpa using hl
+
+theorem parseUnsigned_complete (p : DecParts) (hwf : p.WF) :
+    parseUnsigned dec sci p.neg (p.ip ++ ((if p.hasDec then dec :: p.fp else []) ++ exStr sci p.ex)) = some p := by
+  rcases p with ⟨neg, ip, hasDec, fp, ex⟩
+  rcases hwf with ⟨hip, hfp, hne, hfd, hex⟩
+  simp only at hip hfp hne hfd hex ⊢
+  have hsd := sci_ne_dec hs
+  have hexs := exStr_head hs ex
+  have hemp : (ip.isEmpty && fp.isEmpty) = false := by
+    cases ip <;> cases fp <;> simp at hne ⊢
+  have htail : ∀ hd, parseTail sci neg ip hd fp (exStr sci ex) = some ⟨neg, ip, hd, fp, ex⟩ := by
+    intro hd
+    unfold parseTail
+    simp only [hemp, Bool.false_eq_true, if_false]
+    cases ex with
+    | none => simp [exStr]
+    | some e =>
+      rcases e with ⟨sg, ds⟩
+      simp only at hex
+      simp [exStr, parseExp_render hex.1 hex.2.1 hex.2.2]
+  cases hasDec with
+  | true =>
+    have h1 := span_digits (ip := ip) (rest := dec :: (fp ++ exStr sci ex)) hip
+      (by intro c r h; simp at h; rw [← h.1]; exact hs.2.1)
+    have h2 := span_digits (ip := fp) (rest := exStr sci ex) hfp hexs
+    unfold parseUnsigned
+    simp only [if_true, List.cons_append, h1.1, h1.2, beq_self_eq_true, h2.1, h2.2]
+    exact htail true
+  | false =>
+    have hfp0 : fp = [] := hfd rfl
+    subst hfp0
+    have h1 := span_digits (ip := ip) (rest := exStr sci ex) hip hexs
+    unfold parseUnsigned
+    simp only [Bool.false_eq_true, if_false, List.nil_append, h1.1, h1.2]
+    have := htail false
+    cases hx : exStr sci ex with
+    | nil => rw [hx] at this; exact this
+    | cons c r =>
+      rw [hx] at this
+      have hc : c = sci := by
+        cases ex with
+        | none => simp [exStr] at hx
+        | some e => rcases e with ⟨sg, ds⟩; simp [exStr] at hx; exact hx.1.symm
+      subst hc
+      simp only [hsd, Bool.false_eq_true, if_false]; exact this
+
+/-- soundness of the executable grammar -/
+theorem parseDecimal_sound {s : Str} {p : DecParts} (h : parseDecimal dec sci s = some p) :
+    p.WF ∧ s = p.render dec sci := by
+  unfold parseDecimal at h
+  rw [render_eq]
+  split at h
+  · have := parseUnsigned_sound hs h
+    refine ⟨this.1, ?_⟩
+    rw [this.2.1]; simp only [if_true]; rw [List.singleton_append, ← this.2.2]
+  · have := parseUnsigned_sound hs h
+    refine ⟨this.1, ?_⟩
+    rw [this.2.1]; simp only [Bool.false_eq_true, if_false, List.nil_append]; exact this.2.2
+
+/-- completeness (and unambiguity) of the executable grammar -/
+theorem parseDecimal_complete (p : DecParts) (hwf : p.WF) :
+    parseDecimal dec sci (p.render dec sci) = some p := by
+  have hc := parseUnsigned_complete hs p hwf
+  rw [render_eq]
+  cases hneg : p.neg with
+  | true =>
+    rw [hneg] at hc
+    simp only [if_true, List.singleton_append]
+    unfold parseDecimal
+    exact hc
+  | false =>
+    rw [hneg] at hc
+    simp only [Bool.false_eq_true, if_false, List.nil_append]
+    unfold parseDecimal
+    split
+    · rename_i r heq
+      -- the unsigned numeral starts with a digit or the separator, never with '-'
+      exfalso
+      rcases hwf with ⟨hip, hfp, hne, hfd, _⟩
+      cases hipc : p.ip with
+      | cons a t =>
+        rw [hipc] at heq; simp at heq
+        have : isDigit a = true := hip a (by rw [hipc]; exact List.mem_cons_self ..)
+        rw [heq.1] at this; revert this; decide
+      | nil =>
+        rw [hipc] at heq hne
+        have hfpne : p.fp ≠ [] := by rcases hne with h | h; exact absurd rfl h; exact h
+        have hd : p.hasDec = true := by
+          cases hh : p.hasDec with
+          | true => rfl
+          | false => exact absurd (hfd hh) hfpne
+        rw [hd] at heq; simp at heq
+        exact hs.2.2.2.1 heq.1
+    · exact hc
+
+end Grammar
+
+/-! ### the value read by the stream on grammatical input -/
+
+theorem takeWhile_all {l : Str} (h : l.all isDigit = true) : l.takeWhile isDigit = l := by
+  induction l with
+  | nil => rfl
+  | cons a t ih =>
+    simp at h
+    simp [List.takeWhile_cons, h.1]
+    exact ih (by simpa using h.2)
+
+theorem streamExpVal_of_parse {neg : Bool} {ip fp r : Str} {sg : Option Char} {ds : Str}
+    (h : parseExp r = some (sg, ds)) :
+    streamExpVal neg ip fp r = mkValue neg ip fp (sg == some '-') ds := by
+  unfold parseExp at h
+  unfold streamExpVal
+  split at h
+  · split at h
+    · rename_i t hh; simp at h; rcases h with ⟨rfl, rfl⟩
+      simp at hh
+      have := takeWhile_all (l := t) (by simpa using hh.2)
+      cases t with
+      | nil => exact absurd rfl hh.1
+      | cons a t' => rw [this]; simp
+    · cases h
+  · split at h
+    · rename_i t hh; simp at h; rcases h with ⟨rfl, rfl⟩
+      simp at hh
+      have := takeWhile_all (l := t) (by simpa using hh.2)
+      cases t with
+      | nil => exact absurd rfl hh.1
+      | cons a t' => rw [this]; simp
+    · cases h
+  · rename_i hn1 hn2
+    split at h
+    · rename_i hh; simp at h; rcases h with ⟨rfl, rfl⟩
+      simp at hh
+      have := takeWhile_all (l := r) (by simpa using hh.2)
+      cases r with
+      | nil => exact absurd rfl hh.1
+      | cons a t' => rw [this]; simp
+    · cases h
+
+theorem streamTail_of_parse {sci : Char} (hsci : sci = 'e' ∨ sci = 'E') {neg hasDec : Bool}
+    {ip fp s3 : Str} {p : DecParts} (h : parseTail sci neg ip hasDec fp s3 = some p) :
+    streamTail neg ip fp s3 = p.value := by
+  unfold parseTail at h
+  unfold streamTail
+  split at h
+  · cases h
+  · rename_i hne
+    simp only [hne, if_false]
+    split at h
+    · simp at h; subst h; simp [DecParts.value]
+    · rename_i c r
+      split at h
+      · rename_i hc
+        have hc' : c = sci := by simpa using hc
+        have : (c == 'e' || c == 'E') = true := by
+          rcases hsci with rfl | rfl <;> simp [hc']
+        simp only [this, if_true]
+        cases he : parseExp r with
+        | none => simp [he] at h
+        | some e =>
+          rcases e with ⟨sg, ds⟩
+          simp [he] at h; subst h
+          simp [DecParts.value, streamExpVal_of_parse he]
+      · cases h
+
+theorem streamUnsigned_of_parse {sci : Char} (hsci : sci = 'e' ∨ sci = 'E') {neg : Bool} {l : Str}
+    {p : DecParts} (h : parseUnsigned '.' sci neg l = some p) : streamUnsigned neg l = p.value := by
+  unfold parseUnsigned at h
+  unfold streamUnsigned
+  split at h
+  · exact streamTail_of_parse hsci h
+  · rename_i c r hdw
+    by_cases hc : (c == '.') = true
+    · simp only [hc, if_true] at h ⊢; exact streamTail_of_parse hsci h
+    · have hc' : (c == '.') = false := by simpa using hc
+      simp only [hc', Bool.false_eq_true, if_false] at h ⊢; exact streamTail_of_parse hsci h
+
+theorem streamDouble_of_parse {sci : Char} (hsci : sci = 'e' ∨ sci = 'E') {s : Str} {p : DecParts}
+    (h : parseDecimal '.' sci s = some p) : streamDouble s = p.value := by
+  unfold parseDecimal at h
+  unfold streamDouble
+  split at h
+  · exact streamUnsigned_of_parse hsci h
+  · rename_i hn
+    split
+    · rename_i r; exact absurd rfl (hn r)
+    · rename_i r
+      -- a leading '+' is not grammatical
+      exfalso
+      have : parseUnsigned '.' sci false ('+' :: r) = none := by
+        have hd : isDigit '+' = false := by decide
+        simp [parseUnsigned, List.dropWhile_cons, List.takeWhile_cons, hd, parseTail]
+      rw [this] at h; cases h
+    · exact streamUnsigned_of_parse hsci h
+
 end Bpp.Text.Number
